@@ -1,7 +1,7 @@
 // Copyright 2024 RisingLight Project Authors. Licensed under Apache-2.0.
 
 use super::*;
-use crate::array::{ArrayImpl, DataChunk};
+use crate::array::DataChunk;
 
 /// The executor of a filter operation.
 pub struct FilterExecutor {
@@ -14,12 +14,7 @@ impl FilterExecutor {
         #[for_await]
         for batch in child {
             let batch = batch?;
-            let vis = match Evaluator::new(&self.condition).eval(&batch)? {
-                ArrayImpl::Bool(a) => a,
-                // a condition that is the NULL literal selects no row
-                ArrayImpl::Null(_) => continue,
-                _ => panic!("filters can only accept bool array"),
-            };
+            let vis = Evaluator::new(&self.condition).eval_condition(&batch)?;
             yield batch.filter(vis.true_array());
         }
     }
